@@ -52,4 +52,6 @@ def run(tier, seed):
                      "overlapping commands on one service (second Drain returns at once) are outside the property's quantifier"],
         forced=[forced.d2_served_by_replaced(), forced.d3_served_while_paused(), forced.pause_drains_stopped_rollout(), forced.drain_grants_the_drain_timeout(),
                 forced.drain_covers_unhealthy_targets(), forced.pause_covers_unhealthy_targets(),
-                forced.drain_cuts_connections_upgraded_during_the_drain()], extra=race_stress)
+                forced.drain_cuts_connections_upgraded_during_the_drain(), forced.pause_after_stop_still_holds(),
+                forced.pause_after_stop_still_holds(first_pause=True), forced.rollout_redeploy_grants_the_drain_timeout(),
+                forced.rollout_redeploy_grants_the_drain_timeout(deploy_timeout=5 * SEC, drain_timeout=SEC)], extra=race_stress)
